@@ -95,7 +95,10 @@ class _RecordingMask:
         return out
 
 
+@functools.lru_cache(maxsize=None)
 def _mask_func(acc=4, cf=0.25):
+    """(one instance per parameter pair: every call the pipeline makes is seeded or goes through `_FixedWhenUnseeded`, and a
+    seeded call restores the generator's state — C05)"""
     from direct.common.subsample import build_masking_function
     return build_masking_function("FastMRIRandom", accelerations=[acc], center_fractions=[cf])
 
@@ -110,6 +113,19 @@ class _ConstMask:
         shape = tuple(shape)
         out = [1] * (len(shape) - 3) + [1, shape[-3], shape[-2], 1] if len(shape) > 3 else [1, shape[-3], shape[-2], 1]
         return torch.full(out, bool(self.value), dtype=torch.bool)
+
+
+class _FixedWhenUnseeded:
+    """the wrapped mask function with `seed=None` replaced by a fixed seed; records that the pipeline did ask unseeded"""
+
+    def __init__(self, fn, seed: int):
+        self.fn, self.seed, self.unseeded_calls = fn, seed, 0
+
+    def __call__(self, shape, seed=None, return_acs=False):
+        if seed is None:
+            self.unseeded_calls += 1
+            seed = self.seed
+        return self.fn(shape=shape, seed=seed, return_acs=return_acs)
 
 
 def mask_func_of(kind: str):
@@ -152,6 +168,59 @@ def build_real(f: dict, mask_func, fwd, bwd, *, crop_shape=None, pad_shape=None,
         transforms_type=TransformsType.SSL_SSDU if f["ssl"] else TransformsType.SUPERVISED,
         mask_split_ratio=ratio, mask_split_keep_acs=bool(f["keep_acs"]), mask_split_type=SPLIT[f["split"]],
     )
+
+
+def build_prepost_real(f: dict, mask_func, fwd, bwd, *, crop_shape=None, pad_shape=None, rescale_shape=None, eps=1e-4,
+                       percentile=0.99, pad_to=None, gaussian=0.6):
+    """the second builder pair: (`build_pre_mri_transforms`, `build_post_mri_transforms`) for a flag assignment"""
+    from direct.data.mri_transforms import build_post_mri_transforms, build_pre_mri_transforms
+
+    crop = None if f["crop"] == 0 else (tuple(crop_shape) if f["crop"] == 1 else "reconstruction_size")
+    pre = build_pre_mri_transforms(
+        forward_operator=fwd, backward_operator=bwd, mask_func=mask_func if f["mask_func"] else None,
+        crop=crop, crop_type="uniform", rescale=tuple(rescale_shape) if f["rescale"] else None,
+        pad=tuple(pad_shape) if f["pad"] else None, image_center_crop=bool(f["image_center_crop"]),
+        random_rotation_probability=0.0, random_flip_probability=0.0, padding_eps=eps if f["padding_eps"] else 0.0,
+        estimate_body_coil_image=bool(f["body_coil"]), use_seed=bool(f["use_seed"]),
+        pad_coils=pad_to if f["pad_coils"] else None)
+    post = build_post_mri_transforms(
+        backward_operator=bwd, estimate_sensitivity_maps=bool(f["estimate_smaps"]),
+        sensitivity_maps_type=SMAP[f["smap_type"]], sensitivity_maps_gaussian=gaussian if f["smap_gaussian"] else None,
+        delete_acs_mask=bool(f["delete_acs"]), delete_kspace=bool(f["delete_kspace"]),
+        image_recon_type=RECON[f["recon"]], scaling_key=SK[f["scaling_key"]],
+        scale_percentile=percentile if f["percentile"] else None)
+    return pre, post
+
+
+def collate(samples: list[dict]) -> dict:
+    """what the data loader does between the pre- and the post-transform: stack tensors, list the rest"""
+    out = {}
+    for k in samples[0]:
+        vs = [s_[k] for s_ in samples]
+        out[k] = torch.stack(vs, 0) if isinstance(vs[0], torch.Tensor) else list(vs)
+    return out
+
+
+def uncollate(batch: dict, i: int) -> dict:
+    out = {}
+    for k, v in batch.items():
+        if isinstance(v, torch.Tensor) and v.ndim > 0:
+            out[k] = v[i]
+        elif isinstance(v, (list, tuple)):
+            out[k] = v[i]
+        else:
+            out[k] = v          # a plain value written by a module (`scaling_diff`)
+    return out
+
+
+class PrePost:
+    """pre-transform on the un-batched sample, collate (batch of one), post-transform, un-collate"""
+
+    def __init__(self, pre, post):
+        self.pre, self.post = pre, post
+
+    def __call__(self, sample):
+        return uncollate(self.post(collate([self.pre(sample)])), 0)
 
 
 def raw_sample(k: np.ndarray, filename="file_a.h5", slice_no=0, crop_shape=None) -> dict:
@@ -258,26 +327,56 @@ def _err(e: BaseException) -> str:
 
 # --------------------------------------------------------------------------------------------------
 # correspondence
-def _pipeline_case(ctx, rng, f: dict, nc, ns, h, w, crop_shape, eps_pow, pct, pad_to, border, zero_coil, bucket, mask_fn=None):
-    """whole composed pipeline with identity operators on dyadic data; masks are taken from the real run"""
+def _pipeline_case(ctx, rng, f: dict, nc, ns, h, w, crop_shape, eps_pow, pct, pad_to, border, zero_coil, bucket, mask_fn=None,
+                   op="pipeline", given=(0, 0, 0), all_zero=False):
+    """whole composed pipeline with identity operators on dyadic data; masks are taken from the real run.
+    `op`: pipeline (`build_mri_transforms`) / prepost (`build_pre…` + `build_post…`) / given (`build_mri_transforms` on a
+    sample that already contains `sampling_mask`+`acs_mask` (`given[0:2]`) or a `sensitivity_map` (`given[2]`))."""
     k = exact_kspace(rng, nc, ns, h, w, border=border, zero_coil=zero_coil)
+    if all_zero:
+        k = np.zeros_like(k)
     rec = _RecordingMask(mask_fn if mask_fn is not None else _mask_func(2, 0.5))
     eps = 2.0 ** eps_pow
-    tr = build_real(f, rec, _ident, _ident, crop_shape=crop_shape, eps=eps, percentile=pct, pad_to=pad_to)
+    if op == "prepost":
+        tr = PrePost(*build_prepost_real(f, rec, _ident, _ident, crop_shape=crop_shape, eps=eps, percentile=pct, pad_to=pad_to))
+    else:
+        tr = build_real(f, rec, _ident, _ident, crop_shape=crop_shape, eps=eps, percentile=pct, pad_to=pad_to)
     smp = raw_sample(k, crop_shape=crop_shape if f["crop"] == 2 else None)
+    gmask = gacs = None
+    smap_ints: list[int] = []
+    if op == "given":
+        mshape = (1, 1, h, w, 1) if ns else (1, h, w, 1)
+        probe = (mask_fn if mask_fn is not None else _mask_func(2, 0.5))
+        kshape = (ns, h, w, 2) if ns else (h, w, 2)
+        if given[0]:
+            gmask = probe(shape=kshape, seed=(7, nc, h, w), return_acs=False).reshape(mshape).numpy().astype(bool)
+            smp["sampling_mask"] = gmask.copy()
+        if given[1]:
+            gacs = probe(shape=kshape, seed=(7, nc, h, w), return_acs=True).reshape(mshape).numpy().astype(bool)
+            smp["acs_mask"] = gacs.copy()
+        if given[2]:
+            phase = np.array([1, 1j, -1, -1j], dtype=np.complex64)     # unit-modulus entries: SENSE sums stay exact
+            idx = np.array([rng.randrange(4) for _ in range(k.size)]).reshape(k.shape)
+            sm = phase[idx].astype(np.complex64)
+            smp["sensitivity_map"] = sm
+            smap_ints = cplx_ints(sm)
     try:
         out = run_real(tr, smp)
         ans = canon_out(out, bool(ns), f["recon"])
     except Exception as e:  # noqa: BLE001
         out, ans = None, _err(e)
-        if "kthvalue" in str(e):
-            return None     # precondition: the masked k-space is identically zero (see ASSUMPTIONS)
     hh, ww = (crop_shape if f["crop"] else (h, w))
     npix = hh * ww
     samp = next((m for acs, _, _, m in rec.calls if not acs), None)
     acs = next((m for acs, _, _, m in rec.calls if acs), None)
-    mask = [int(v) for v in samp.reshape(-1).tolist()] if samp is not None else [0] * npix
-    acsm = [int(v) for v in acs.reshape(-1).tolist()] if acs is not None else [0] * npix
+    if gmask is not None and not f["mask_func"]:
+        mask = [int(v) for v in gmask.reshape(-1).tolist()]
+    else:
+        mask = [int(v) for v in samp.reshape(-1).tolist()] if samp is not None else [0] * npix
+    if gacs is not None and not (f["mask_func"] and f["estimate_smaps"]):
+        acsm = [int(v) for v in gacs.reshape(-1).tolist()]
+    else:
+        acsm = [int(v) for v in acs.reshape(-1).tolist()] if acs is not None else [0] * npix
     nc_eff = max(nc, pad_to) if f["pad_coils"] else nc
     chunk = npix * max(ns, 1)
     ktab = [int((1 - pct) * (j * chunk)) + 1 for j in range(nc_eff + 1)]
@@ -285,12 +384,16 @@ def _pipeline_case(ctx, rng, f: dict, nc, ns, h, w, crop_shape, eps_pow, pct, pa
     if out is not None and "input_sampling_mask" in out:
         inm = [int(v) for v in out["input_sampling_mask"].reshape(-1).tolist()]
         tgm = [int(v) for v in out["target_sampling_mask"].reshape(-1).tolist()]
-    line = "pipeline " + " | ".join([
+    groups = [
         ints(flag_list(f)), ints([nc, max(ns, 1), h, w]), ints(cplx_ints(k)), ints(mask), ints(acsm),
         ints(crop_shape if f["crop"] else (0, 0)), ints([1, 2 ** (-eps_pow)]), ints(ktab), ints([pad_to or 0]),
-        ints(inm), ints(tgm)])
-    return {"line": line, "impl": (lambda a=ans: a), "nontrivial": min(h, w) >= 2 and np.unique(np.abs(k)).size > 1,
-            "bucket": bucket, "key": ("pipeline", tuple(flag_list(f)), nc, ns, h, w, tuple(crop_shape or ()), k.tobytes())}
+        ints(inm), ints(tgm)]
+    if op == "given":
+        groups = [ints(given), ints(smap_ints)] + groups
+    line = op + " " + " | ".join(groups)
+    return {"line": line, "impl": (lambda a=ans: a), "nontrivial": min(h, w) >= 2 and (all_zero or np.unique(np.abs(k)).size > 1),
+            "bucket": bucket + ("/IndexError" if ans == "err IndexError" else ""),
+            "key": (op, tuple(given), tuple(flag_list(f)), nc, ns, h, w, tuple(crop_shape or ()), k.tobytes())}
 
 
 def _store_groups(store: dict) -> list[str]:
@@ -538,26 +641,79 @@ def correspondence(ctx: Ctx):
             f["smap_type"] = 1
         bucket = "pipeline/" + ("ssl" if f["ssl"] else "sup") + ("/3d" if ns else "/2d") + ("/crop" if f["crop"] else "")
         mk = rng.choice(["random", "random", "random", "full", "zero"])
-        if mk == "zero" and (f["percentile"] or f["ssl"]):
+        if mk == "zero" and f["ssl"]:
             mk = "full"
         if mk != "random":
             bucket += "/mask-" + mk
         c = _pipeline_case(ctx, rng, f, nc, ns, h, w, crop_shape, rng.choice([-13, -13, -1, -2]),
                            rng.choice([0.99, 0.9, 0.5]), pad_to, rng.choice([0, 0, 1]), rng.random() < 0.25, bucket,
                            mask_fn=None if mk == "random" else mask_func_of(mk))
-        if c is None:
-            ctx.hist["pipeline/skipped-all-zero-masked-kspace"] = ctx.hist.get("pipeline/skipped-all-zero-masked-kspace", 0) + 1
+        yield c
+    # (3a) the error branch of the percentile scaling: identically zero k-space (IndexError with the percentile, a zero
+    #      scaling factor with the maximum), for both builder families
+    for i in range(ctx.budget(8, 120)):
+        f = {**default_flags(), "percentile": i % 2, "scaling_key": rng.choice([0, 1]), "recon": rng.randrange(4),
+             "padding_eps": rng.choice([0, 1]), "delete_kspace": rng.choice([0, 1])}
+        op = "prepost" if i % 4 >= 2 else "pipeline"
+        nc, ns = rng.choice([1, 2, 3]), rng.choice([0, 0, 2])
+        yield _pipeline_case(ctx, rng, f, nc, ns, rng.choice([4, 5, 6]), rng.choice([4, 5, 7]), None, -13, 0.9, None, 0, False,
+                             f"{op}/all-zero", op=op, all_zero=True)
+    # (3b) the second builder pair (pre-transform, collate, post-transform), exactly
+    for i in range(ctx.budget(40, 1500)):
+        f = random_flags(rng, valid_only=True)
+        f.update(rescale=0, pad=0, compress_coils=0, smap_gaussian=0, image_center_crop=1, ssl=0, keep_acs=0)
+        nc = rng.choice([1, 2, 3, 4])
+        ns = rng.choice([0, 0, 0, 2, 3])
+        if ns and f["crop"] == 2:
+            f["crop"] = 1
+        if f["estimate_smaps"] and f["smap_type"] == 2 and not (nc in (1, 4) and not f["pad_coils"]):
+            f["smap_type"] = 1
+        h, w = rng.choice([4, 5, 6, 7, 8, 9, 11]), rng.choice([4, 5, 6, 7, 8, 10])
+        crop_shape = (rng.randint(2, h), rng.randint(2, w)) if f["crop"] else None
+        pad_to = nc + rng.choice([0, 1, 2]) if f["pad_coils"] else None
+        mk = rng.choice(["random", "random", "random", "full", "zero"])
+        bucket = "prepost" + ("/3d" if ns else "/2d") + ("/crop" if f["crop"] else "") + ("" if mk == "random" else "/mask-" + mk)
+        yield _pipeline_case(ctx, rng, f, nc, ns, h, w, crop_shape, rng.choice([-13, -13, -1, -2]), rng.choice([0.99, 0.9, 0.5]),
+                             pad_to, rng.choice([0, 0, 1]), rng.random() < 0.25, bucket,
+                             mask_fn=None if mk == "random" else mask_func_of(mk), op="prepost")
+    # (3c) samples that already contain tensor entries: (A) sampling_mask + acs_mask and no mask function (with and
+    #      without a crop: CropKspace crops the given masks), (B) a sensitivity map from the dataset
+    for i in range(ctx.budget(36, 1200)):
+        f = random_flags(rng, valid_only=True)
+        f.update(rescale=0, pad=0, compress_coils=0, smap_gaussian=0, image_center_crop=1, body_coil=0)
+        nc = rng.choice([1, 2, 3, 4])
+        ns = rng.choice([0, 0, 0, 2])
+        scen = "A" if i % 2 == 0 else "B"
+        if scen == "A":
+            f["mask_func"] = 0
+            given = (1, 1, 0)
+            if ns and f["crop"] == 2:
+                f["crop"] = 1
         else:
-            yield c
+            given = (0, 0, 1)
+            f["crop"] = 0                        # CropKspace does not crop a given sensitivity map
+            f["pad_coils"] = 0
+            if rng.random() < 0.6:
+                f["estimate_smaps"] = 0
+                f["keep_acs"] = 0
+        if f["estimate_smaps"] and f["smap_type"] == 2 and not (nc in (1, 4) and not f["pad_coils"]):
+            f["smap_type"] = 1
+        h, w = rng.choice([4, 5, 6, 7, 8, 9]), rng.choice([4, 5, 6, 7, 8])
+        crop_shape = (rng.randint(2, h), rng.randint(2, w)) if f["crop"] else None
+        pad_to = nc + rng.choice([0, 1, 2]) if f["pad_coils"] else None
+        bucket = "given/" + scen + ("/ssl" if f["ssl"] else "/sup") + ("/3d" if ns else "/2d") + ("/crop" if f["crop"] else "")
+        yield _pipeline_case(ctx, rng, f, nc, ns, h, w, crop_shape, rng.choice([-13, -1, -2]), rng.choice([0.99, 0.9, 0.5]),
+                             pad_to, rng.choice([0, 0, 1]), rng.random() < 0.25, bucket, op="given", given=given)
     # (4) malformed: the pipeline must reject, and so must the model
     for f in ({**default_flags(), "mask_func": 0, "estimate_smaps": 0},
               {**default_flags(), "recon": 4, "estimate_smaps": 0},
               {**default_flags(), "recon": 5, "estimate_smaps": 0, "ssl": 1},
               {**default_flags(), "ssl": 1, "keep_acs": 1, "estimate_smaps": 0},
               {**default_flags(), "scaling_key": 3}):
-        c = _pipeline_case(ctx, rng, f, 2, 0, 6, 5, None, -13, 0.9, None, 0, False, "pipeline/malformed")
-        if c is not None:
-            yield c
+        yield _pipeline_case(ctx, rng, f, 2, 0, 6, 5, None, -13, 0.9, None, 0, False, "pipeline/malformed")
+    # a given sampling mask without the ACS mask and a crop: CropKspace raises, and so does the model
+    yield _pipeline_case(ctx, rng, {**default_flags(), "mask_func": 0, "estimate_smaps": 0, "crop": 1}, 2, 0, 6, 5, (4, 3), -13,
+                         0.9, None, 0, False, "given/malformed", op="given", given=(1, 0, 0))
 
 
 # --------------------------------------------------------------------------------------------------
@@ -661,6 +817,40 @@ def observations() -> list[dict]:
             "({'kspace': RandomState(0) randn (2, 8, 6) complex64, 'filename': 'file_a.h5', 'slice_no': 0})",
             lambda: run_real(build_real({**default_flags(), "crop": 1, "pad": 1}, _mask_func(), T.fft2, T.ifft2,
                                         crop_shape=(6, 4), pad_shape=(8, 6)), raw_sample(k)))
+    def pad_map_instability():
+        tr = lambda: build_real({**default_flags(), "pad": 1, "padding_eps": 0, "delete_kspace": 0}, _mask_func(), T.fft2, T.ifft2,  # noqa: E731
+                                pad_shape=(12, 6))
+        a = run_real(tr(), raw_sample(k[:1]))["sensitivity_map"]
+        b = run_real(tr(), raw_sample((k[:1] * np.float32(4.37)).astype(np.complex64)))["sensitivity_map"]
+        d = float((a - b).abs().max())
+        if d > 1e-3:
+            raise RuntimeError(f"max |difference| of the sensitivity map under scaling by 4.37: {d:.3f} (entries of unit magnitude)")
+    attempt("with PadKspace the zero-padded image rows hold FFT rounding noise only; EstimateSensitivityMap normalises it to unit "
+            "magnitude (safe_divide guards exact zeros only), so the map there is not stable under non-dyadic scaling (bit-exact "
+            "under 2^k); the oracle therefore excludes `sensitivity_map` / SENSE targets of padded pipelines from the "
+            "arbitrary-scale comparison",
+            "build_mri_transforms(fft2, ifft2, mask, pad=(12, 6), padding_eps=0)({'kspace': RandomState(0) randn (1, 8, 6) complex64, ...}) "
+            "vs the same on 4.37 * kspace", pad_map_instability)
+    def rank_of_3d_masks():
+        tr = build_real({**default_flags(), "crop": 1, "padding_eps": 0, "delete_acs": 0}, _mask_func(), T.fft2, T.ifft2, crop_shape=(6, 4))
+        g3 = np.random.RandomState(1)
+        k3 = (g3.randn(2, 3, 8, 6) + 1j * g3.randn(2, 3, 8, 6)).astype(np.complex64)
+        o = run_real(tr, raw_sample(k3))
+        raise RuntimeError(f"masked_kspace {tuple(o['masked_kspace'].shape)}, sampling_mask {tuple(o['sampling_mask'].shape)}, "
+                           f"acs_mask {tuple(o['acs_mask'].shape)}")
+    attempt("3-D sample with a tuple `crop`: CreateSamplingMask asks the mask function for the 2-D crop shape, so `sampling_mask` / "
+            "`acs_mask` have rank 4 while the k-space has rank 5.  Un-batched this broadcasts correctly (alignment from the right); "
+            "after a collate (data loader, or between build_pre_mri_transforms and build_post_mri_transforms) the masks' batch axis "
+            "is aligned with the coil axis: an error, or a silent mis-broadcast when batch size == number of coils",
+            "build_mri_transforms(fft2, ifft2, mask, crop=(6, 4), padding_eps=0, delete_acs_mask=False)({'kspace': (2, 3, 8, 6) complex64, ...})",
+            rank_of_3d_masks)
+    zc = np.zeros((1, 4, 4), dtype=np.complex64)
+    zc[0, :, 2] = [3, -3, 4j, -4j]
+    attempt("ComputeScalingFactor's percentile branch tests `data[_].sum(...).bool()` to find non-padded coils: a coil whose entries "
+            "cancel to an exactly zero sum is dropped, and when no coil is left torch.kthvalue raises IndexError although the k-space "
+            "is not zero (modelled: `runE`, theorem runE_equivariant; the error is scale-invariant)",
+            "build_mri_transforms(ident, ident, fully-sampled mask, padding_eps=0)({'kspace': one coil, one column [3, -3, 4j, -4j], ...})",
+            lambda: run_real(build_real({**default_flags(), "padding_eps": 0}, mask_func_of("full"), _ident, _ident), raw_sample(zc)))
     return out
 
 
@@ -699,6 +889,96 @@ def _oracle(ctx: Ctx, deep: bool = False):
                   sample={"flags": {n: f[n] for n in ("crop", "recon", "smap_type", "scaling_key", "percentile", "ssl")},
                           "shape": list(k.shape)})
         yield from _guarded(check_config(cfg, k), {"op": "pipeline", **cfg})
+    # (i-pp) the second builder pair, same checks (plus: batch of two through the post-transform)
+    for i in range(ctx.budget(18, 800) * (3 if deep else 1)):
+        f = {**random_flags(rng, valid_only=True), "ssl": 0, "keep_acs": 0, "compress_coils": 0, "delete_kspace": rng.choice([0, 0, 1])}
+        if i < 6:
+            f["recon"] = i
+            if i >= 4:
+                f["estimate_smaps"] = 1
+        nc = rng.choice([1, 2, 3, 4])
+        ns = rng.choice([0, 0, 0, 3])
+        if ns and f["crop"] == 2:
+            f["crop"] = 1
+        h, w = rng.choice([6, 7, 8, 9, 10, 11]), rng.choice([6, 7, 8, 9, 10, 12])
+        seed = rng.randrange(2 ** 31)
+        cfg = {"family": "prepost", "flags": f, "shape": [nc] + ([ns] if ns else []) + [h, w], "crop_shape": [rng.randint(3, h - 1), rng.randint(3, w - 1)],
+               "seed": seed, "border": 0, "zero_coil": False, "centered": rng.random() < 0.7, "pad_to": nc + rng.choice([0, 1]),
+               "percentile": rng.choice([0.99, 0.9, 0.8]), "stale": rng.random() < 0.3}
+        k = _gauss_sample(seed, nc, ns, h, w, 0, False)
+        ctx.count(("oracle-pp", tuple(flag_list(f)), tuple(k.shape), seed), True,
+                  bucket="oracle/prepost" + ("/3d" if ns else "/2d") + ("/crop" if f["crop"] else "") + ("/stale" if cfg["stale"] else ""))
+        yield from _guarded(check_config(cfg, k), {"op": "pipeline", **cfg})
+    # (i-opt) rarely used options of the single builder: pad / rescale (string crop or none), coil compression, seeding
+    #         switched off (mask function RNG re-seeded by the harness so that two runs can be compared), stale entries
+    for i in range(ctx.budget(12, 400) * (3 if deep else 1)):
+        f = random_flags(rng, valid_only=True)
+        kind = ("pad", "rescale", "compress", "unseeded", "stale", "pad")[i % 6]
+        nc = rng.choice([1, 2, 3, 4])
+        ns = rng.choice([0, 0, 3]) if kind in ("pad", "compress", "stale") else 0
+        h, w = rng.choice([6, 7, 8, 9, 10]), rng.choice([6, 7, 8, 9, 10])
+        seed = rng.randrange(2 ** 31)
+        cfg = {"flags": f, "crop_shape": [rng.randint(3, h - 1), rng.randint(3, w - 1)], "seed": seed, "border": 0,
+               "zero_coil": False, "centered": rng.random() < 0.7, "pad_to": nc + rng.choice([0, 1]), "percentile": rng.choice([0.99, 0.9])}
+        if kind in ("pad", "rescale"):
+            f["crop"] = rng.choice([0, 0, 2]) if not ns else 0
+            f[kind] = 1
+            base_hw = cfg["crop_shape"] if f["crop"] else [h, w]
+            cfg["pad_shape"] = [base_hw[0] + rng.choice([0, 1, 2, 3]), base_hw[1] + rng.choice([0, 1, 4])]
+            cfg["rescale_shape"] = [rng.choice([5, 8, 9]), rng.choice([6, 7, 10])]
+        elif kind == "compress":
+            nc = rng.choice([3, 4])
+            f.update(compress_coils=1, pad_coils=0)
+            cfg["compress_to"] = rng.choice([1, 2])
+            if f["estimate_smaps"] and f["smap_type"] == 2:
+                f["smap_type"] = 1
+        elif kind == "unseeded":
+            f.update(use_seed=0, ssl=0, keep_acs=0, image_center_crop=1)
+        else:
+            cfg["stale"] = True
+        if ns and f["crop"] == 2:
+            f["crop"] = 1
+        k = _gauss_sample(seed, nc, ns, h, w, 0, False)
+        cfg["shape"] = list(k.shape)
+        ctx.count(("oracle-opt", kind, tuple(flag_list(f)), tuple(k.shape), seed), True, bucket="oracle/option/" + kind)
+        yield from _guarded(check_config(cfg, k), {"op": "pipeline", **cfg})
+    # (viii) call histories on one transform object (no state kept across calls), raw input left untouched, input forms
+    for i in range(ctx.budget(6, 120)):
+        f = {**random_flags(rng, valid_only=True), "delete_kspace": rng.choice([0, 1])}
+        fam = "prepost" if i % 3 == 2 else "single"
+        if fam == "prepost":
+            f.update(ssl=0, keep_acs=0, compress_coils=0)
+        cfg = {"family": fam, "flags": f, "seed": rng.randrange(2 ** 31), "shape": [rng.choice([1, 2, 3]), rng.choice([8, 9, 10]), rng.choice([8, 10, 11])],
+               "crop_shape": [rng.randint(3, 7), rng.randint(3, 7)], "centered": rng.random() < 0.7, "percentile": rng.choice([0.99, 0.9]),
+               "pad_to": 4}
+        if f["crop"] == 2:
+            f["crop"] = 1
+        ctx.count(("history", fam, tuple(flag_list(f)), cfg["seed"], tuple(cfg["shape"])), True, bucket="oracle/history/" + fam)
+        yield from _guarded(check_history(cfg), {"op": "history", **cfg})
+    # (ix) the builders' default arguments denote the default configuration (only operators and the mask function given)
+    for fam in ("single", "supervised", "prepost"):
+        for _ in range(ctx.budget(1, 12)):
+            cfg = {"family": fam, "seed": rng.randrange(2 ** 31), "shape": [rng.choice([1, 3]), rng.choice([8, 10, 11]), rng.choice([16, 20, 23])],
+                   "name": "def_%d.h5" % rng.randrange(1000)}
+            ctx.count(("defaults", fam, cfg["seed"], tuple(cfg["shape"])), True, bucket="oracle/defaults/" + fam)
+            yield from _guarded(check_defaults(cfg), {"op": "defaults", **cfg})
+    # (x) samples that already contain masks (no mask function) or a sensitivity map
+    for i in range(ctx.budget(8, 200)):
+        f = {**random_flags(rng, valid_only=True), "delete_kspace": 0, "body_coil": 0, "compress_coils": 0}
+        scen = "A" if i % 2 == 0 else "B"
+        if scen == "A":
+            f["mask_func"] = 0
+        else:
+            f.update(crop=0, pad_coils=0)
+            if rng.random() < 0.6:
+                f.update(estimate_smaps=0, keep_acs=0)
+        if f["crop"] == 2:
+            f["crop"] = 1
+        cfg = {"flags": f, "scenario": scen, "seed": rng.randrange(2 ** 31), "shape": [rng.choice([1, 2, 4]), rng.choice([8, 9, 10]), rng.choice([8, 10, 11])],
+               "crop_shape": [rng.randint(3, 7), rng.randint(3, 7)], "centered": rng.random() < 0.7, "percentile": rng.choice([0.99, 0.9]),
+               "pad_to": 5}
+        ctx.count(("given", scen, tuple(flag_list(f)), cfg["seed"], tuple(cfg["shape"])), True, bucket="oracle/given/" + scen)
+        yield from _guarded(check_given(cfg), {"op": "given", **cfg})
     # (i') extreme power-of-two scales (k-space magnitudes far below float32 eps / far above 1): nothing in the pipeline
     #      may compare against an absolute constant (a clamp of the scaling factor, an absolute threshold, ...)
     for sk, pct, ssl in itertools.product((0, 1), (0, 1), (0, 1)):
@@ -766,9 +1046,32 @@ def _oracle(ctx: Ctx, deep: bool = False):
 
 
 def _build_for(cfg, mask_func=None):
+    """the real transform of a recorded configuration (`family`: single = build_mri_transforms, prepost = the
+    pre-/post-transform pair with a batch-of-one collate in between)"""
     fwd, bwd = _ops(cfg.get("centered", True))
-    return build_real(cfg["flags"], mask_func or mask_func_of(cfg.get("mask", "random")), fwd, bwd, crop_shape=tuple(cfg.get("crop_shape", (4, 4))),
-                      percentile=cfg.get("percentile", 0.99), pad_to=cfg.get("pad_to"))
+    mf = mask_func or mask_func_of(cfg.get("mask", "random"))
+    if not cfg["flags"].get("use_seed", 1):
+        # `use_seed=False` hands `seed=None` to the mask function, which then re-seeds its RNG from the OS: substitute a fixed
+        # seed for `None` so that two runs of the pipeline can be compared (the branch of the pipeline is the unseeded one)
+        mf = _FixedWhenUnseeded(mf, cfg.get("seed", 0) % 9973)
+        np.random.seed(cfg.get("seed", 0) % (2 ** 31))
+    kw = dict(crop_shape=tuple(cfg.get("crop_shape", (4, 4))), percentile=cfg.get("percentile", 0.99), pad_to=cfg.get("pad_to"),
+              pad_shape=cfg.get("pad_shape"), rescale_shape=cfg.get("rescale_shape"))
+    if cfg.get("family") == "prepost":
+        return PrePost(*build_prepost_real(cfg["flags"], mf, fwd, bwd, **kw))
+    return build_real(cfg["flags"], mf, fwd, bwd, compress_to=cfg.get("compress_to"), **kw)
+
+
+STALE = ("target", "masked_kspace", "scaling_factor")
+
+
+def add_stale(sample: dict, shape) -> dict:
+    """entries a previous pass / a dataset may have left in the raw sample and that the pipeline (re)computes"""
+    sp = tuple(shape[1:])
+    sample["target"] = np.full(sp, 7.0, dtype=np.float32)
+    sample["masked_kspace"] = np.full(tuple(shape) + (2,), 5.0, dtype=np.float32)
+    sample["scaling_factor"] = 3.0
+    return sample
 
 
 def check_config(cfg, k: np.ndarray):
@@ -782,12 +1085,15 @@ def check_config(cfg, k: np.ndarray):
     crop_shape = tuple(cfg["crop_shape"])
     rs = crop_shape if f["crop"] == 2 else None
 
-    def run(scale, slice_no=0, keep_kspace=False):
+    def run(scale, slice_no=0, keep_kspace=False, stale=False):
         ff = dict(f)
         if keep_kspace:
             ff["delete_kspace"] = 0
         tr = _build_for({**cfg, "flags": ff})
-        return run_real(tr, raw_sample((k * np.float32(scale)).astype(np.complex64), slice_no=slice_no, crop_shape=rs))
+        smp = raw_sample((k * np.float32(scale)).astype(np.complex64), slice_no=slice_no, crop_shape=rs)
+        if stale:
+            add_stale(smp, k.shape)
+        return run_real(tr, smp)
 
     rep = {"op": "pipeline", **cfg}
     try:
@@ -804,7 +1110,7 @@ def check_config(cfg, k: np.ndarray):
             yield Violation("missing-output-" + kk, f"the output lacks `{kk}`", {**rep, "missing": [kk]})
             return
     # (i) scaling by 2^k bit-exact, arbitrary positive reals to 1e-4
-    for kpow in (-14, -3, 1, 3, 12):
+    for kpow in (-14, 1, 12):
         sc = 2.0 ** kpow
         try:
             o = run(sc)
@@ -824,7 +1130,13 @@ def check_config(cfg, k: np.ndarray):
                             {**rep, "scale": sc, "expected": s0 * sc, "observed": s1})
     sc = 0.37 + (cfg["seed"] % 1000) / 97.0
     o = run(sc)
+    # with PadKspace the zero-padded image rows carry only FFT rounding noise, which EstimateSensitivityMap normalises to unit
+    # magnitude (the safe division guards exact zeros only): the map — and a SENSE target — is not stable under a
+    # non-dyadic scale there (recorded observation); bit-exactness under 2^k is still required above
+    unstable = {"sensitivity_map"} | ({"target"} if f["recon"] >= 4 else set()) if f["pad"] else set()
     for kk in NORMALISED:
+        if kk in unstable:
+            continue
         if kk in base and isinstance(base[kk], torch.Tensor):
             if kk not in o or base[kk].shape != o[kk].shape or not _close(base[kk], o[kk], 1e-4):
                 yield Violation("equivariance-real-" + kk, f"`{kk}` changes under scaling by {sc}",
@@ -878,8 +1190,52 @@ def check_config(cfg, k: np.ndarray):
                              type_reconstruction=RECON[f["recon"]])(smp)["target"]
         if full["target"].shape != exp_t.shape or not _close(full["target"], exp_t, 1e-5):
             yield Violation("target-not-recon-of-normalised", "SSL target != ComputeImage(output k-space)", rep)
+    # (vi'') entries left in the raw sample that the pipeline recomputes (`target`, `masked_kspace`, `scaling_factor`) must not
+    #        change anything
+    if cfg.get("stale") and f["scaling_key"] in (0, 1):
+        try:
+            st = run(1.0, stale=True)
+        except Exception as e:  # noqa: BLE001
+            yield Violation("stale-keys-raise", f"a raw sample that already contains {STALE} makes the transform raise: {e}", rep)
+            st = None
+        if st is not None:
+            for kk in _tensor_keys(base):
+                if kk not in st or not isinstance(st[kk], torch.Tensor) or st[kk].shape != base[kk].shape or not torch.equal(st[kk], base[kk]):
+                    yield Violation("stale-keys-change-" + kk, f"`{kk}` differs when the raw sample already contains {STALE}",
+                                    {**rep, "key": kk})
+    # (iii') the pre/post pair computes the target from the un-normalised k-space and divides afterwards
+    # (not for a 3-D sample with a tuple crop: CreateSamplingMask then builds rank-4 masks for the 2-D crop shape while the
+    #  k-space has rank 5 — harmless on an un-batched sample, where broadcasting aligns from the right, but after a collate
+    #  the masks' batch axis meets the coil axis; recorded observation)
+    if cfg.get("family") == "prepost" and float(full["scaling_factor"]) > 0 and not (three_d and f["crop"] == 1):
+        pre, post = build_prepost_real({**f, "delete_kspace": 0}, mask_func_of(cfg.get("mask", "random")), *_ops(cfg.get("centered", True)),
+                                       crop_shape=crop_shape, percentile=cfg.get("percentile", 0.99), pad_to=cfg.get("pad_to"),
+                                       pad_shape=cfg.get("pad_shape"), rescale_shape=cfg.get("rescale_shape"))
+        # batch of two different samples through the post-transform: element 0 must be the un-batched result
+        s0 = run_real(pre, raw_sample(k.copy(), crop_shape=rs))
+        s1 = run_real(pre, raw_sample((k[::-1] * np.float32(3.0)).astype(np.complex64).copy(), filename="file_b.h5", crop_shape=rs))
+        try:
+            both = run_real(post, collate([s0, s1]))
+        except Exception as e:  # noqa: BLE001
+            yield Violation("prepost-batch-raises", f"the post-transform raises on a batch of two: {e}", rep)
+            both = None
+        if both is not None:
+            e0 = uncollate(both, 0)
+            for kk in _tensor_keys(full):
+                if kk not in e0 or e0[kk].shape != full[kk].shape or not (
+                        torch.equal(e0[kk], full[kk]) if full[kk].dtype == torch.bool else _close(e0[kk], full[kk], 1e-6)):
+                    yield Violation("prepost-batch-" + kk, f"`{kk}` of element 0 of a batch of two differs from the un-batched result",
+                                    {**rep, "key": kk})
+    # (iv') pad / rescale: the requested spatial size
+    for flag, key in (("pad", "pad_shape"), ("rescale", "rescale_shape")):
+        if f[flag] and cfg.get(key) and not (flag == "rescale" and f["pad"]):
+            want = tuple(cfg[key])
+            for kk in ("masked_kspace", "input_kspace", "sensitivity_map"):
+                if kk in base and tuple(base[kk].shape[-3:-1]) != want[-2:]:
+                    yield Violation("crop-shape-" + kk, f"`{kk}` has spatial shape {tuple(base[kk].shape[-3:-1])}, requested {flag} gives {want}",
+                                    {**rep, "key": kk, "expected": list(want), "observed": list(base[kk].shape)})
     # (iv) crop shapes
-    if f["crop"]:
+    if f["crop"] and not f["pad"] and not f["rescale"]:
         sp = crop_shape
         nc_out = base["masked_kspace"].shape[0] if "masked_kspace" in base else base["input_kspace"].shape[0]
         lead = (k.shape[1],) if three_d else ()
@@ -908,7 +1264,12 @@ def _int_sample(seed, nc, h, w):
     g = np.random.RandomState(seed)
     re = g.randint(1, 65, size=(nc, h, w)) * g.choice([-1, 1], size=(nc, h, w))
     im = g.randint(1, 65, size=(nc, h, w)) * g.choice([-1, 1], size=(nc, h, w))
-    return (re + 1j * im).astype(np.complex64)
+    k = (re + 1j * im).astype(np.complex64)
+    # no subset of columns of a coil may sum to exactly zero (`ComputeScalingFactor` drops coils whose entries sum to zero and
+    # raises IndexError when none is left — the documented precondition, modelled by `runE`): make the column sums of
+    # re + im positive by flipping the sign of whole columns
+    cs = (k.real + k.imag).sum(axis=-2, keepdims=True)
+    return (k * np.where(cs < 0, -1, 1) + (cs == 0) * np.float32(1.0)).astype(np.complex64)
 
 
 LADDER = (-40, -30, -24, 30, 40)
@@ -1183,6 +1544,164 @@ def check_same_filename(cfg):
                             {"op": "same_filename", **cfg, "slice": sl, "differing_positions": int(diff.sum())})
 
 
+def _same_outputs(a: dict, b: dict, what: str, rep: dict, key: str, exact=True):
+    """key sets and every tensor entry equal"""
+    ka, kb = sorted(str.__str__(x) for x in a), sorted(str.__str__(x) for x in b)
+    if ka != kb:
+        yield Violation(key + "-keys", f"{what}: key sets differ ({sorted(set(ka) ^ set(kb))})", rep)
+        return
+    bb = {str.__str__(x): v for x, v in b.items()}
+    for kk, v in a.items():
+        kk = str.__str__(kk)
+        w = bb[kk]
+        if isinstance(v, torch.Tensor):
+            ok = isinstance(w, torch.Tensor) and v.shape == w.shape and v.dtype == w.dtype and (
+                torch.equal(v, w) if exact or v.dtype == torch.bool else _close(v, w, 1e-6))
+            if not ok:
+                yield Violation(key + "-" + kk, f"{what}: `{kk}` differs", {**rep, "key": kk})
+
+
+def check_history(cfg):
+    """One transform object applied to a sequence of samples (two files, several slices, a repeated sample, a scaled
+    sample): every output equals that of a freshly built transform on the same sample — nothing is remembered across
+    calls.  The raw numpy k-space handed in is left untouched, and complex128 / non-contiguous / Fortran-ordered inputs
+    with the same values give the same outputs."""
+    f = cfg["flags"]
+    nc, h, w = cfg["shape"]
+    rep = {"op": "history", **cfg}
+    ks = {("hist_a.h5", 0): _gauss_sample(cfg["seed"], nc, 0, h, w, 0, False), ("hist_a.h5", 1): _gauss_sample(cfg["seed"] + 1, nc, 0, h, w, 0, False),
+          ("hist_b.h5", 0): _gauss_sample(cfg["seed"] + 2, nc, 0, h, w, 0, False)}
+    seq = [("hist_a.h5", 0, 1.0), ("hist_b.h5", 0, 1.0), ("hist_a.h5", 1, 8.0), ("hist_a.h5", 0, 1.0), ("hist_b.h5", 0, 0.125)]
+    tr = _build_for(cfg)
+    for step, (name, sl, scale) in enumerate(seq):
+        k = (ks[(name, sl)] * np.float32(scale)).astype(np.complex64)
+        keep = k.copy()
+        got = run_real(tr, raw_sample(k, filename=name, slice_no=sl))
+        if not np.array_equal(k.view(np.float32), keep.view(np.float32)):
+            yield Violation("raw-input-modified", f"the raw k-space array handed to the transform is modified in place (call {step})",
+                            {**rep, "step": step})
+        ref = run_real(_build_for(cfg), raw_sample(keep.copy(), filename=name, slice_no=sl))
+        yield from _same_outputs(ref, got, f"call {step} ({name}, slice {sl}, scale {scale}) on a reused transform vs a fresh one",
+                                 {**rep, "step": step}, "history")
+    # input forms of one sample
+    name, sl = "hist_a.h5", 0
+    k = ks[(name, sl)]
+    ref = run_real(_build_for(cfg), raw_sample(k.copy(), filename=name, slice_no=sl))
+    forms = {"complex128": k.astype(np.complex128), "fortran": np.asfortranarray(k),
+             "non-contiguous": np.stack([k, -k], axis=-1)[..., 0]}
+    for fname, arr in forms.items():
+        s_ = {"kspace": arr, "filename": name, "slice_no": sl}
+        try:
+            got = run_real(_build_for(cfg), s_)
+        except Exception as e:  # noqa: BLE001
+            yield Violation("input-form-raises", f"a {fname} k-space array makes the transform raise: {e}", {**rep, "form": fname})
+            continue
+        yield from _same_outputs(ref, got, f"{fname} input vs contiguous complex64", {**rep, "form": fname}, "input-form", exact=False)
+
+
+def check_defaults(cfg):
+    """Transforms built with the *default* arguments (only the operators and the mask function are given) behave as
+    the default configuration: identical to the explicitly parametrised build, seeded by the file name, scale-equivariant."""
+    import direct.data.mri_transforms as M
+
+    nc, h, w = cfg["shape"]
+    fam = cfg["family"]
+    rep = {"op": "defaults", **cfg}
+    fwd, bwd = _ops(True)
+
+    def default_built():
+        if fam == "single":
+            return M.build_mri_transforms(fwd, bwd, _mask_func())
+        if fam == "supervised":
+            return M.build_supervised_mri_transforms(fwd, bwd, _mask_func())
+        return PrePost(M.build_pre_mri_transforms(fwd, bwd, _mask_func()), M.build_post_mri_transforms(bwd))
+
+    def explicit():
+        c = {"family": "prepost" if fam == "prepost" else "single", "flags": default_flags(), "centered": True}
+        return _build_for(c)
+
+    k = _gauss_sample(cfg["seed"], nc, 0, h, w, 0, False)
+    a = run_real(default_built(), raw_sample(k.copy(), filename=cfg["name"]))
+    b = run_real(explicit(), raw_sample(k.copy(), filename=cfg["name"]))
+    if fam == "supervised":
+        b = {kk: v for kk, v in b.items() if str.__str__(kk) != "is_ssl"}
+    yield from _same_outputs(b, a, "default arguments vs the explicit default configuration", rep, "defaults")
+    tr = default_built()
+    masks = []
+    for sl in (0, 1, 4):
+        o = run_real(tr, raw_sample(_gauss_sample(cfg["seed"] + sl, nc, 0, h, w, 0, False), filename=cfg["name"], slice_no=sl))
+        masks.append(o["sampling_mask"] & ~o["padding"] if "padding" in o else o["sampling_mask"])
+    pads = []
+    for sl, m_ in zip((1, 4), masks[1:]):
+        if m_.shape != masks[0].shape or bool(((m_ ^ masks[0])).sum() > 2 * h):   # padding may differ by a few border columns
+            yield Violation("mask-differs-within-file", f"default arguments: slices 0 and {sl} of one file get different sampling masks",
+                            {**rep, "slice": sl})
+    c8 = run_real(default_built(), raw_sample((k * np.float32(8.0)).astype(np.complex64), filename=cfg["name"]))
+    for kk in NORMALISED:
+        if kk in a and isinstance(a[kk], torch.Tensor) and (kk not in c8 or not torch.equal(a[kk], c8[kk])):
+            yield Violation("equivariance-pow2-" + kk, f"default arguments: `{kk}` changes under scaling by 8", {**rep, "key": kk})
+    if float(c8["scaling_factor"]) != 8.0 * float(a["scaling_factor"]):
+        yield Violation("scaling-factor-pow2", "default arguments: scaling_factor is not multiplied by 8", rep)
+
+
+def check_given(cfg):
+    """The sample already contains (A) `sampling_mask` + `acs_mask` (no mask function) or (B) a `sensitivity_map`:
+    scale-equivariance and self-consistency on the real pipeline."""
+    import direct.data.transforms as T
+
+    f = cfg["flags"]
+    nc, h, w = cfg["shape"]
+    rep = {"op": "given", **cfg}
+    k = _gauss_sample(cfg["seed"], nc, 0, h, w, 0, False)
+    extra = {}
+    if cfg["scenario"] == "A":
+        mf = _mask_func()
+        extra["sampling_mask"] = mf(shape=(h, w, 2), seed=(cfg["seed"] % 1000,), return_acs=False).numpy().astype(bool)
+        extra["acs_mask"] = mf(shape=(h, w, 2), seed=(cfg["seed"] % 1000,), return_acs=True).numpy().astype(bool)
+    else:
+        g = np.random.RandomState(cfg["seed"] + 5)
+        sm = (g.randn(nc, h, w) + 1j * g.randn(nc, h, w)).astype(np.complex64)
+        sm = sm / np.sqrt((np.abs(sm) ** 2).sum(0, keepdims=True))
+        extra["sensitivity_map"] = sm.astype(np.complex64)
+
+    def run(scale):
+        smp = raw_sample((k * np.float32(scale)).astype(np.complex64))
+        smp.update({kk: v.copy() for kk, v in extra.items()})
+        return run_real(_build_for(cfg), smp)
+
+    try:
+        base = run(1.0)
+    except Exception as e:  # noqa: BLE001
+        yield Violation("pipeline-raises", f"the composed transform raises on a sample that already contains {sorted(extra)}: {e}",
+                        {**rep, "observed": repr(e)})
+        return
+    for kk in _tensor_keys(base):
+        if not torch.isfinite(base[kk].float()).all():
+            yield Violation("nonfinite-" + kk, f"output `{kk}` contains NaN/Inf", {**rep, "key": kk})
+    for kpow in (-9, 4):
+        o = run(2.0 ** kpow)
+        for kk in NORMALISED:
+            if kk in base and isinstance(base[kk], torch.Tensor) and (kk not in o or not torch.equal(base[kk], o[kk])):
+                yield Violation("equivariance-pow2-" + kk, f"`{kk}` changes under scaling by 2^{kpow} (sample with given {sorted(extra)})",
+                                {**rep, "kpow": kpow, "key": kk})
+        if float(o["scaling_factor"]) != float(base["scaling_factor"]) * 2.0 ** kpow:
+            yield Violation("scaling-factor-pow2", f"scaling_factor not multiplied by 2^{kpow} (sample with given {sorted(extra)})",
+                            {**rep, "kpow": kpow})
+    if cfg["scenario"] == "A" and not f["ssl"]:
+        want = torch.from_numpy(extra["sampling_mask"])
+        if f["crop"]:
+            want = T.complex_center_crop(want, tuple(cfg["crop_shape"]))
+        if tuple(base["sampling_mask"].shape) != tuple(want.shape) or not torch.equal(base["sampling_mask"], want):
+            yield Violation("given-mask-changed", "the sample's own sampling mask is not the one the outputs carry", rep)
+        exp, _ = T.apply_mask(base["kspace"], base["sampling_mask"])
+        if not torch.equal(base["masked_kspace"], exp):
+            yield Violation("masked-not-mask-of-normalised", "masked_kspace != apply_mask(kspace, given sampling_mask)", rep)
+    if cfg["scenario"] == "B" and not f["estimate_smaps"]:
+        want = T.to_tensor(extra["sensitivity_map"]).float()
+        if "sensitivity_map" not in base or not torch.equal(base["sensitivity_map"], want):
+            yield Violation("given-map-changed", "the sample's own sensitivity map is not the one the outputs carry", rep)
+
+
 # --------------------------------------------------------------------------------------------------
 def replay(rep: dict) -> bool:
     """Re-run a recorded failing case on the implementation; True when it still fails."""
@@ -1193,8 +1712,17 @@ def replay(rep: dict) -> bool:
             nc, ns = shape[0], (shape[1] if len(shape) == 4 else 0)
             k = _gauss_sample(rep["seed"], nc, ns, shape[-2], shape[-1], rep.get("border", 0), rep.get("zero_coil", False))
             cfg = {kk: rep[kk] for kk in ("flags", "shape", "crop_shape", "seed", "border", "zero_coil", "centered", "pad_to",
-                                          "percentile") if kk in rep}
+                                          "percentile", "family", "stale", "pad_shape", "rescale_shape", "compress_to") if kk in rep}
             return any(True for _ in check_config(cfg, k))
+        if op == "history":
+            cfg = {kk: rep[kk] for kk in ("family", "flags", "seed", "shape", "crop_shape", "centered", "percentile", "pad_to") if kk in rep}
+            return any(True for _ in check_history(cfg))
+        if op == "defaults":
+            cfg = {kk: rep[kk] for kk in ("family", "seed", "shape", "name")}
+            return any(True for _ in check_defaults(cfg))
+        if op == "given":
+            cfg = {kk: rep[kk] for kk in ("flags", "scenario", "seed", "shape", "crop_shape", "centered", "percentile", "pad_to") if kk in rep}
+            return any(True for _ in check_given(cfg))
         if op == "scale_ladder":
             cfg = {kk: rep[kk] for kk in ("flags", "seed", "shape", "percentile", "centered", "mask") if kk in rep}
             return any(True for _ in check_scale_ladder(cfg))
